@@ -5,7 +5,7 @@ functions build their strings.
 `parse` reads a string into pieces; `balanced` checks nesting, the single root, attribute uniqueness and that
 only blanks occur outside the root; `wf s` = both succeed.  The recogniser accepts a *subset* of XML 1.0
 (no prolog, comments, processing instructions, CDATA sections, DOCTYPE; ASCII names; no blanks around `=`;
-no raw `>` in character data; no references inside attribute values) — every string it accepts is a
+no raw `>` in character data) — every string it accepts is a
 well-formed XML 1.0 document whose root is the first start tag.
 -/
 import SkNet.Model.Xml
@@ -61,6 +61,18 @@ def spanP (p : Nat → Bool) : PyStr → PyStr × PyStr
   | [] => ([], [])
   | c :: r => if p c then let (a, b) := spanP p r; (c :: a, b) else ([], c :: r)
 
+/-- an attribute value between quotes `q`: XML characters other than `<` and the quote, `&` only as the start of a
+    reference `&body;` -/
+def attrValOk (q : Nat) : Nat → PyStr → Bool
+  | 0, _ => false
+  | _+1, [] => true
+  | f+1, c :: r =>
+    if c = 38 then
+      match spanP (fun x => x != 59) r with
+      | (b, _ :: r2) => refOk b && attrValOk q f r2
+      | (_, []) => false
+    else isXmlChar c && c != 60 && c != q && attrValOk q f r
+
 /-- attributes up to and including the `>` or `/>` that ends the tag:
     `(attributes, trailing blanks, self-closing?, rest)` -/
 def parseAttrs : Nat → PyStr → Option (List Attr × PyStr × Bool × PyStr)
@@ -86,7 +98,7 @@ def parseAttrs : Nat → PyStr → Option (List Attr × PyStr × Bool × PyStr)
               match r3 with
               | [] => none
               | _ :: r4 =>
-                if val.all (attrCharOk q) then
+                if attrValOk q (val.length + 1) val then
                   match parseAttrs f r4 with
                   | some (as, t, sc, rest) => some (⟨ws, key, q, val⟩ :: as, t, sc, rest)
                   | none => none
